@@ -256,6 +256,11 @@ class ExprTr:
         if fn == "abs" and len(args) == 1:
             s, t = self.num(args[0])
             return (f"(Py.iabs {s})", "Int") if t == "Int" else (f"(Py.rabs {s})", "Rat")
+        if fn in ("np.nanmin", "np.min", "min", "np.nanmax", "np.max", "max") and len(args) == 1 \
+                and isinstance(args[0], (ast.List, ast.Tuple)) and len(args[0].elts) == 2:
+            # min([a, b]) of two finite numbers
+            fn = "min" if fn.endswith("min") else "max"
+            args = args[0].elts
         if fn in ("max", "min") and len(args) == 2:
             a, ta = self.num(args[0])
             b, tb = self.num(args[1])
@@ -279,7 +284,12 @@ class ExprTr:
             target = ast.unparse(args[0])
             s, t = self.num(node.func.value)
             if "int" in target:
-                return (s, "Int") if t == "Int" else (f"(Py.trunc {s})", "Int")
+                v = s if t == "Int" else f"(Py.trunc {s})"
+                # unsigned narrow types wrap around (numpy semantics for integer input)
+                for w, m in (("uint8", 256), ("uint16", 65536)):
+                    if target.endswith(w):
+                        return f"(Py.imod {v} {m})", "Int"
+                return v, "Int"
             if "float" in target:
                 return self.to_rat(s, t), "Rat"
         raise Untranslatable(f"unsupported call {fn}(...)")
@@ -364,7 +374,17 @@ class FuncTr:
         pre: list[str] = []
         for n, ty in sorted(_assigned_types(self, st).items()):
             if n not in self.declared:
-                raise Untranslatable(f"variable {n} first assigned inside a branch")
+                # first assigned inside a branch: allowed when EVERY branch assigns it (so no path
+                # reads the placeholder); declared before the `if` with the type of its first value
+                if not _assigned_on_all_paths(st, n):
+                    raise Untranslatable(f"variable {n} first assigned inside only some branches")
+                val = _first_assigned_value(st, n)
+                _, vty = self.e.tr(val)
+                if vty == "Prop":
+                    vty = "Bool"
+                self.e.types[n] = vty
+                self.declared.add(n)
+                pre.append(pad + f"let mut {lname(n)} : {leantype(vty)} := default")
         out = pre + [pad + f"if {self.e.prop(st.test)} then"]
         out += self.block(st.body, ind + 1)
         if st.orelse:
@@ -376,6 +396,33 @@ class FuncTr:
                 out.append(pad + "else")
                 out += self.block(st.orelse, ind + 1)
         return out
+
+
+def _assigns(stmts, n) -> bool:
+    """Does every path through `stmts` assign variable n (or raise/return)?"""
+    for st in stmts:
+        if isinstance(st, (ast.Raise, ast.Return)):
+            return True
+        if isinstance(st, ast.Assign) and any(isinstance(t, ast.Name) and t.id == n for t in st.targets):
+            return True
+        if isinstance(st, ast.AnnAssign) and isinstance(st.target, ast.Name) and st.target.id == n and st.value:
+            return True
+        if isinstance(st, ast.If) and _assigned_on_all_paths(st, n):
+            return True
+    return False
+
+
+def _assigned_on_all_paths(st: ast.If, n: str) -> bool:
+    return bool(st.orelse) and _assigns(st.body, n) and _assigns(st.orelse, n)
+
+
+def _first_assigned_value(st, n):
+    for node in sorted((x for x in ast.walk(st) if isinstance(x, (ast.Assign, ast.AnnAssign))),
+                       key=lambda x: (x.lineno, x.col_offset)):
+        tg = node.targets if isinstance(node, ast.Assign) else [node.target]
+        if any(isinstance(t, ast.Name) and t.id == n for t in tg) and node.value is not None:
+            return node.value
+    raise Untranslatable(f"no assignment to {n}")
 
 
 def _assigned_types(ftr: FuncTr, st) -> dict[str, str]:
